@@ -65,6 +65,9 @@ pub enum Ev {
     /// (all accumulate events) is fed `alt` (the same multiset of mathematical terms in another
     /// order / grouping) and must end with the same image
     Order(usize, Vec<Acc>),
+    /// client workload: r×k by k×c matrix product through `quire_dot` (does not touch the
+    /// history's quire; every output element is its own cleared-quire history)
+    MatDot { r: usize, k: usize, c: usize, a: Vec<u32>, b: Vec<u32> },
 }
 
 impl Ev {
@@ -79,10 +82,11 @@ impl Ev {
             Ev::Split2 => 6,
             Ev::Split3 => 7,
             Ev::Order(..) => 8,
+            Ev::MatDot { .. } => 9,
         }
     }
-    pub const KIND_NAMES: [&'static str; 9] = [
-        "acc", "clear", "neg", "load", "restart", "inject", "split2", "split3", "order",
+    pub const KIND_NAMES: [&'static str; 10] = [
+        "acc", "clear", "neg", "load", "restart", "inject", "split2", "split3", "order", "matdot",
     ];
     pub fn is_c12_only(&self) -> bool {
         matches!(self, Ev::Neg(_) | Ev::Load(..) | Ev::Split2 | Ev::Split3)
@@ -103,6 +107,17 @@ impl Ev {
             }
             Ev::Split2 => "split2".into(),
             Ev::Split3 => "split3".into(),
+            Ev::MatDot { r, k, c, a, b } => {
+                let mut s = format!("matdot {r} {k} {c} a");
+                for x in a {
+                    s.push_str(&format!(" {:x}", x));
+                }
+                s.push_str(" b");
+                for x in b {
+                    s.push_str(&format!(" {:x}", x));
+                }
+                s
+            }
             Ev::Order(k, alt) => {
                 let mut s = format!("order {k}");
                 for a in alt {
@@ -141,6 +156,21 @@ impl Ev {
                     img[i] = u64::from_str_radix(tok[1 + i], 16).map_err(|e| e.to_string())?;
                 }
                 Ok(Ev::Inject(img))
+            }
+            "matdot" => {
+                if tok.len() < 6 {
+                    return Err("matdot: too short".into());
+                }
+                let r: usize = tok[1].parse().map_err(|_| "matdot: bad r")?;
+                let k: usize = tok[2].parse().map_err(|_| "matdot: bad k")?;
+                let c: usize = tok[3].parse().map_err(|_| "matdot: bad c")?;
+                if tok[4] != "a" || tok.len() != 6 + r * k + k * c || tok[5 + r * k] != "b" {
+                    return Err("matdot: bad layout".into());
+                }
+                let hx = |t: &&str| u32::from_str_radix(t, 16).map_err(|e| e.to_string());
+                let a: Result<Vec<u32>, String> = tok[5..5 + r * k].iter().map(hx).collect();
+                let b: Result<Vec<u32>, String> = tok[6 + r * k..].iter().map(hx).collect();
+                Ok(Ev::MatDot { r, k, c, a: a?, b: b? })
             }
             "split2" => Ok(Ev::Split2),
             "split3" => Ok(Ev::Split3),
